@@ -28,6 +28,9 @@ type zzC08World struct {
 	accounts []uint32
 	acct     uint32           // the account the operations work on
 	dropped  []ManagedAddress // addresses handed out inside transactions that did not commit
+	force    int              // 0: outcome chosen per transaction; 1: never commits; 2: commits
+	replay   int              // >= 0: step() repeats this operation instead of choosing one
+	lastOp   int
 }
 
 func (w *zzC08World) sm() *ScopedKeyManager {
@@ -39,7 +42,15 @@ func (w *zzC08World) sm() *ScopedKeyManager {
 // tx runs op in one database transaction whose outcome is chosen: committed,
 // rolled back by an error (dry run), or failing at commit.
 func (w *zzC08World) tx(name string, op func(ns walletdb.ReadWriteBucket) error) (committed bool) {
-	outcome := verifrt.Choice(3, "tx-outcome")
+	var outcome int
+	switch w.force {
+	case 1: // a transaction that does not commit (either way)
+		outcome = 1 + verifrt.Choice(2, "tx-outcome")
+	case 2: // committed
+		outcome = 0
+	default:
+		outcome = verifrt.Choice(3, "tx-outcome")
+	}
 	verifrt.Observe("op", name)
 	switch outcome {
 	case 0:
@@ -72,7 +83,12 @@ func (w *zzC08World) tx(name string, op func(ns walletdb.ReadWriteBucket) error)
 
 func (w *zzC08World) step() {
 	sm := w.sm()
-	switch verifrt.Choice(7, "op") {
+	op := w.replay
+	if op < 0 {
+		op = verifrt.Choice(7, "op")
+	}
+	w.lastOp = op
+	switch op {
 	case 0:
 		var mas []ManagedAddress
 		if w.tx("NextExternalAddresses", func(ns walletdb.ReadWriteBucket) error {
@@ -96,7 +112,9 @@ func (w *zzC08World) step() {
 			w.dropped = append(w.dropped, mas...)
 		}
 	case 2:
-		w.names++
+		if w.replay < 0 {
+			w.names++
+		}
 		name := []string{"alice", "bob", "carol", "dave"}[w.names%4]
 		w.tx("RenameAccount", func(ns walletdb.ReadWriteBucket) error { return sm.RenameAccount(ns, w.acct, name) })
 	case 3:
@@ -238,7 +256,38 @@ func (w *zzC08World) compare() bool {
 func zzC08(steps int) { zzC08On(steps, false) }
 
 func zzC08On(steps int, imported bool) {
-	w := &zzC08World{zzMgrWorld: zzNewMgrWorld(zzSeedA), scope: KeyScopeBIP0084, prefix: "c08-"}
+	w := &zzC08World{zzMgrWorld: zzNewMgrWorld(zzSeedA), scope: KeyScopeBIP0084, prefix: "c08-", replay: -1}
+	w.run(steps, imported, false)
+}
+
+// zzC08Retry: "a database transaction that is rolled back does not advance
+// address indices, and the next committed request issues the very address a
+// restarted wallet would issue": [one committed operation], then an operation
+// in a transaction that does NOT commit, then - without looking in between -
+// the SAME request again in a committed transaction; afterwards the running
+// manager and a freshly opened one must agree, and an address request must
+// have returned the address the fresh manager knows as its last one.
+func zzC08Retry(pre int) {
+	w := &zzC08World{zzMgrWorld: zzNewMgrWorld(zzSeedA), scope: KeyScopeBIP0084, prefix: "c08-retry-", replay: -1}
+	for s := 0; s < pre; s++ {
+		w.force = 2
+		w.step()
+	}
+	w.force = 1
+	w.step()
+	w.force, w.replay = 2, w.lastOp
+	w.step()
+	verifrt.Observe("tx", "committed-retry-after-rollback")
+	if w.compare() {
+		verifrt.Reach("retry-agrees")
+	}
+	verifrt.Reach("c08-end")
+}
+
+func ZzC08Retry0() { zzC08Retry(0) }
+func ZzC08Retry1() { zzC08Retry(1) }
+
+func (w *zzC08World) run(steps int, imported, _ bool) {
 	if imported {
 		// the operations work on an imported extended-public-key account
 		// that already has two external and one internal address
